@@ -193,18 +193,28 @@ def run_loader_case(inp):
     n = int(inp["n"])
     pos = r.uniform(10, 16, size=(3, 3)) * scale
     rot = Rotation.random(3, random_state=inp["seed"])
-    mole = Molecules(pos, rot)
+    mole = Molecules(pos, rot, features={"g": [0, 0, 0]})
     tmpl = _blob(inp["seed"], (n, n, n))
     ms = inp["max_shifts"]
     M = _models()[inp["model"]]
     viols = []
+    via = inp.get("via", "align")
+    msv = ms if not isinstance(ms, list) else tuple(ms)
     try:
         with dask.config.set(scheduler="synchronous"):
             ld = SubtomogramLoader(tomo, mole, order=1, scale=scale)
-            out = ld.align(tmpl, max_shifts=ms if not isinstance(ms, list) else tuple(ms), alignment_model=M)
+            if via == "align":
+                out = ld.align(tmpl, max_shifts=msv, alignment_model=M)
+            elif via == "multi":
+                out = ld.align_multi_templates([tmpl, tmpl[::-1].copy()], max_shifts=msv, alignment_model=M)
+            elif via == "group":
+                out = list(ld.groupby("g").align(tmpl, max_shifts=msv, alignment_model=M))[0][1]
+            else:
+                out = list(ld.groupby("g").align_multi_templates([tmpl, tmpl[::-1].copy()], max_shifts=msv,
+                                                                  alignment_model=M))[0][1]
     except Exception as e:  # noqa: BLE001
-        return [{"clause": "no-error", "desc": f"loader.align raised {type(e).__name__}: {str(e)[:120]}",
-                 "input": dict(inp)}]
+        return [{"clause": "no-error", "desc": f"loader {via} with max_shifts={ms!r} raised {type(e).__name__}: "
+                                              f"{str(e)[:120]}", "input": dict(inp)}]
     d = out.molecules.pos.astype(np.float64) - mole.pos.astype(np.float64)
     Rm = rot.as_matrix()
     local = np.einsum("nji,nj->ni", Rm, d)   # R^T d : components along the molecule's own axes
@@ -247,7 +257,8 @@ def oracle(rng, thorough, deep=False, hints=None):
     for mdl in (models[:3] if not big else models):
         for ms in ([0.73, 1.0] if not big else [0.0, 0.73, 1.0, [0.5, 1.5, 0.25]]):
             cases.append(dict(kind="loader", model=mdl, scale=float(rng.choice([1.0, 0.5, 2.0])),
-                              n=int(rng.choice([6, 7])), max_shifts=ms, seed=int(rng.integers(0, 10 ** 6))))
+                              n=int(rng.choice([6, 7])), max_shifts=ms, seed=int(rng.integers(0, 10 ** 6)),
+                              via=["align", "multi", "group", "group_multi"][len(cases) % 4]))
     viols, stats = [], {"by_model": {}, "by_sub": {}, "samples": [{"oracle_case": c} for c in cases[:2]]}
     for c in cases:
         stats["by_model"][c["model"]] = stats["by_model"].get(c["model"], 0) + 1
